@@ -180,7 +180,7 @@ func run2(c *hlib.Ctx) {
 
 	// --- distances (DistTransform kinds)
 	for i := 0; i < n; i++ {
-		x := g.transform(true, 0)
+		x := g.distTransform()
 		x.stat(c, "dxf2")
 		t := x.build2().(model2d.DistTransform)
 		p := g.p2()
@@ -252,7 +252,7 @@ func run2(c *hlib.Ctx) {
 		}))
 	}
 	for i := 0; i < n; i++ {
-		x := g.transform(true, 0)
+		x := g.distTransform()
 		t := x.build2().(model2d.DistTransform)
 		var s interface {
 			model2d.SDF
@@ -291,7 +291,7 @@ func run2(c *hlib.Ctx) {
 
 	// --- transformedCollider, faithful kinds with the recording stub
 	for i := 0; i < n; i++ {
-		x := g.transform(true, 0)
+		x := g.distTransform()
 		t := x.build2().(model2d.DistTransform)
 		r := model2d.Ray{Origin: g.p2(), Direction: g.p2()}
 		st := &stub2{}
@@ -341,7 +341,7 @@ func run2(c *hlib.Ctx) {
 		g.emitColl2(x, unit, "unit-ball", axis)
 	}
 	for i := 0; i < 2*n; i++ {
-		x := g.transform(true, 0)
+		x := g.distTransform()
 		col, cname := g.collider2()
 		g.emitColl2(x, col, cname, g.ray2(col))
 	}
